@@ -119,7 +119,11 @@ def dstep (d : DState) (toks : List String) : DState × List String :=
           else if kind = "view" then some ⟨fun _ => some true, fun _ => none⟩
           else if kind = "bad" then some noOracles else none
         match orc? with
-        | some orc => deliver orc d s i (List.replicate 16 0) (parseCuts rest)
+        | some orc =>
+          let extra := match rest.find? (·.startsWith "extra=") with
+            | some t => (unhex? (t.drop 6).toString).getD []
+            | none => []
+          deliver orc d s i (List.replicate 16 0 ++ extra) (parseCuts rest)
         | none => (d, ["bad-op"])
       | none => (d, ["bad-op"])
     | none => (d, ["bad-op"])
